@@ -9,7 +9,8 @@ import concurrent.futures as cf
 import json, os, re, shutil, tempfile
 import vlib
 
-IDS = ["Chrome-120", "Firefox-120", "iOS-14"]     # must be the IDs of spec/Roller_*.cfg
+IDS = ["Chrome-120", "Firefox-120", "Randomized"]  # must be the IDs of spec/Roller_*.cfg; "Randomized" = HelloRandomized (unseeded)
+RAND = "Randomized"
 TIMEOUT_MS = 90000                                 # watchdog per Dial (Roller's own timeouts are 7..30 s per attempt)
 MC_ACTIONS = ["BeginStep", "Shuffle", "ReadWorking", "TcpDial", "Handshake", "Record"]
 
@@ -45,7 +46,7 @@ def run_roller(ctx, scs, name, race=True):
             evs = ctx.drv("rollerdial", inp, race=False, prog="quic", name=name + "-norace", timeout=2400)
         else:
             raise
-    if not evs or evs[0].get("ev") != "Table" or evs[0]["fingerprints"] < len(IDS):
+    if not evs or evs[0].get("ev") != "Table" or evs[0]["fingerprints"] < len([i for i in IDS if i != RAND]):
         raise vlib.Machinery("the test server cannot tell the candidate IDs apart: %r" % (evs[:1],))
     rows = {}
     for s in scs:
@@ -55,9 +56,10 @@ def run_roller(ctx, scs, name, race=True):
             se = [e for e in evs if e.get("ev") == "StepEnd" and e["sc"] == s["id"] and e["step"] == k + 1]
             if len(d) != st["n"] or len(se) != 1:
                 raise vlib.Machinery("harness log incomplete for scenario %d step %d" % (s["id"], k + 1))
-            steps.append({"accept": st["accept"], "tcpfail": st["tcpfail"], "n": st["n"], "working": se[0]["working"], "stray": se[0]["stray"],
-                          "dials": [{"caller": e["caller"], "ret": e["ret"], "seen": e["seen"], "snis": e["snis"], "given": e["given"],
-                                     "conn": e["conn"], "csni": e["csni"]} for e in d]})
+            steps.append({"accept": st["accept"], "rmode": st["rmode"], "tcpfail": st["tcpfail"], "n": st["n"],
+                          "working": se[0]["working"], "wseed": se[0]["wseed"], "stray": se[0]["stray"],
+                          "dials": [{"caller": e["caller"], "ret": e["ret"], "seen": [[a, b] for a, b in zip(e["seen"], e["seen_k"])], "sok": e["seen_ok"], "snis": e["snis"],
+                                     "given": e["given"], "conn": e["conn"], "csni": e["csni"], "cseed": e["cseed"]} for e in d]})
         rows[s["id"]] = {"id": s["id"], "configured": s["configured"], "preset": s["preset"], "steps": steps}
     return rows, racerep
 
@@ -95,27 +97,31 @@ RERUNS = 12   # Roller shuffles with its own PRNG: a rejected history is re-run 
 
 def classes_of(row):
     """Describes WHAT is odd in a rejected history (TLC has already rejected it; this only names the class for the
-    signature): a set of class names, computed from the observations alone."""
+    signature): a set of class names, computed from the observations alone. seen entries are [id, k]."""
     out = set()
-    w = row["preset"]
+    w = [row["preset"], 0]          # the working ClientHelloID as far as the observations tell: [id, fingerprint number]
     for st in row["steps"]:
         conf = set(row["configured"])
         for d in st["dials"]:
             seen = d["seen"]
-            if len(set(seen)) != len(seen):
+            names = [x[0] for x in seen]
+            keys = [tuple(x) for x in seen]
+            if len(set(keys)) != len(keys) or any(names.count(x) > 1 for x in set(names) if x != RAND):
                 out.add("id-tried-twice")
-            if st["n"] == 1 and w != "-" and seen and seen[0] != w:
+            if st["n"] == 1 and w[0] != "-" and seen and seen[0][0] != w[0]:
                 out.add("working-id-not-first")
-            if any(x in st["accept"] for x in seen[:-1]):
+            if st["n"] == 1 and w[0] == RAND and w[1] > 0 and seen and seen[0][0] == RAND and seen[0][1] != w[1]:
+                out.add("working-fingerprint-rerandomized")
+            if any(x[0] in st["accept"] for x in seen[:-1]):
                 out.add("kept-trying-after-accepted-id")
-            if d["ret"] == "hserr" and not st["tcpfail"] and st["n"] == 1 and not (conf | ({w} - {"-"})) <= set(seen):
+            if d["ret"] == "hserr" and not st["tcpfail"] and not (conf | ({w[0]} - {"-"} if st["n"] == 1 else set())) <= set(names):
                 out.add("configured-id-never-tried")
-            if d["ret"] == "hserr" and st["n"] == 2 and not conf <= set(seen):
-                out.add("configured-id-never-tried")
-            if d["ret"] == "hserr" and any(x in st["accept"] for x in seen):
+            if d["ret"] == "hserr" and any(x in st["accept"] for x in names):
                 out.add("failed-although-an-id-was-accepted")
-            if d["ret"] == "ok" and (not seen or d["conn"] != seen[-1] or d["conn"] not in st["accept"]):
+            if d["ret"] == "ok" and (not seen or d["conn"] != names[-1] or (d["conn"] != RAND and d["conn"] not in st["accept"])):
                 out.add("returned-conn-not-the-accepted-id")
+            if d["ret"] == "ok" and (d["conn"] == RAND) != (d["cseed"] != ""):
+                out.add("returned-conn-seed-odd")
             if st["tcpfail"] and (d["ret"] != "tcperr" or seen):
                 out.add("tcp-error-not-immediate")
             if not st["tcpfail"] and d["ret"] == "tcperr":
@@ -124,14 +130,20 @@ def classes_of(row):
                 out.add("sni-not-the-given-name")
             if d["ret"] not in ("ok", "hserr", "tcperr"):
                 out.add("dial-" + d["ret"])
-            if any(x not in conf and x != w for x in seen) and st["n"] == 1:
+            if any(x not in conf and x != w[0] for x in names) and st["n"] == 1:
                 out.add("unconfigured-id-tried")
-        oks = [d["conn"] for d in st["dials"] if d["ret"] == "ok"]
-        if (oks and st["working"] not in oks) or (not oks and st["working"] != w):
+        oks = [d for d in st["dials"] if d["ret"] == "ok" and d["seen"]]
+        if (oks and st["working"] not in [d["conn"] for d in oks]) or (not oks and st["working"] != w[0]):
             out.add("working-id-not-recorded")
+        if oks and st["working"] == RAND and st["wseed"] == "":
+            out.add("working-seed-missing")
+        if oks and st["working"] == RAND and st["wseed"] != "" and st["wseed"] not in [d["cseed"] for d in oks]:
+            out.add("working-seed-not-the-connections")
         if st["stray"]:
             out.add("stray-hello")
-        w = st["working"]
+        if oks:
+            m = [d for d in oks if d["conn"] == st["working"] and (st["working"] != RAND or d["cseed"] == st["wseed"])]
+            w = list(m[0]["seen"][-1]) if m else [st["working"], 0]
     return out or {"other"}
 
 
@@ -165,10 +177,14 @@ def _run(ctx, pool):
                 break
         return "model_checking", {"evaluations": n, "distinct_nontrivial": 1, "rule": "replay of one recorded history, up to %d runs until one is rejected" % RERUNS, "samples": [sc], "exhaustive": False}, []
     # ------------------------------------------------------------------ 1. model checking (background)
-    safe_cfg = mkcfg(ctx, "Roller_MC", "c29_safe", MaxSteps="2" if q else "3")
-    cov_cfg = mkcfg(ctx, "Roller_MC", "c29_cov", MaxSteps="1")
-    live_cfg = mkcfg(ctx, "Roller_MC_live", "c29_live", IDs='{"Chrome-120", "Firefox-120"}' if q else '{"Chrome-120", "Firefox-120", "iOS-14"}')
+    # quick: every 1-step history with 2 concurrent callers + every sequential history of length 2;
+    # thorough: every history of length <= 3 with 2 concurrent callers
+    safe_cfg = mkcfg(ctx, "Roller_MC", "c29_safe", MaxSteps="1" if q else "3")
+    seq_cfg = mkcfg(ctx, "Roller_MC", "c29_seq", MaxSteps="2" if q else "3", MaxCallers="1")
+    cov_cfg = mkcfg(ctx, "Roller_MC", "c29_cov", MaxSteps="1", IDs='{"Chrome-120", "Randomized"}')
+    live_cfg = mkcfg(ctx, "Roller_MC_live", "c29_live", IDs='{"Chrome-120", "Randomized"}' if q else '{"Chrome-120", "Firefox-120", "Randomized"}')
     f_safe = pool.submit(ctx.tlc, "Roller_MC", cfg=safe_cfg, workers=8, timeout=2400, heap="6g", extra=shm_extra(ctx))
+    f_seq = pool.submit(ctx.tlc, "Roller_MC", cfg=seq_cfg, workers=4, timeout=2400, heap="4g", extra=shm_extra(ctx))
     f_cov = pool.submit(ctx.tlc, "Roller_MC", cfg=cov_cfg, workers=2, timeout=1200, heap="3g", coverage=True, extra=shm_extra(ctx), count=False)
     f_live = pool.submit(ctx.tlc, "Roller_MC", cfg=live_cfg, workers=4, timeout=2400, heap="4g", extra=shm_extra(ctx))
     # ------------------------------------------------------------------ 2. Dial histories chosen by TLC
@@ -229,14 +245,18 @@ def _run(ctx, pool):
                     ctx.finding("rejected:" + c, "recorded Dial history is not a behaviour of Roller (first run and re-run %d, class %s): last step %s"
                                 % (k + 1, c, json.dumps(rows2[s["id"]]["steps"][-1])), {"scenario": {k2: s[k2] for k2 in ("configured", "preset", "steps")}, "class": c})
             pending = still
-        if pending:
+        if pending and ctx.findings:
+            ctx.note("%d further rejected histories (first-run classes %s) were not rejected again in %d re-runs; the run already has reproduced rejections"
+                     % (len(pending), sorted(set().union(*[first[s["id"]] for s in pending])), RERUNS))
+        elif pending:
             raise vlib.Machinery("%d rejected histories were never rejected again in %d re-runs (ids %s, classes %s); first run of the first one: %s"
                                  % (len(pending), RERUNS, [s["id"] for s in pending][:10], sorted(first[pending[0]["id"]]), json.dumps(rows[pending[0]["id"]])[:3000]))
 
     # ------------------------------------------------------------------ 4. binding canaries
     def two_tried(r):   # first call: a preset working ID is tried first and refused, a later ID is accepted
         d = r["steps"][0]["dials"][0]
-        return r["id"] in acc and r["steps"][0]["n"] == 1 and r["preset"] != "-" and len(d["seen"]) >= 2 and d["seen"][0] == r["preset"] and d["ret"] == "ok"
+        return (r["id"] in acc and r["steps"][0]["n"] == 1 and r["preset"] not in ("-", RAND) and len(d["seen"]) >= 2 and d["seen"][0] == [r["preset"], 0]
+                and d["ret"] == "ok" and all(x[1] == 0 for x in d["seen"]))
     base = next((r for r in allrows if two_tried(r)), None)
     if base is None and not ctx.findings:
         raise vlib.Machinery("vacuity: no accepted history whose first Dial tried the preset working ID and then another one")
@@ -246,12 +266,12 @@ def _run(ctx, pool):
     def variant(f):
         c = json.loads(json.dumps(base)); f(c["steps"][0], c["steps"][0]["dials"][0]); return c
     def swap(st, d): d["seen"][0], d["seen"][1] = d["seen"][1], d["seen"][0]
-    def dup(st, d): d["seen"].insert(0, d["seen"][0])
-    def wrongconn(st, d): d["conn"] = d["seen"][0]
-    def notrecorded(st, d): st["working"] = d["seen"][0]
+    def dup(st, d): d["seen"].insert(0, d["seen"][0]); d["sok"].insert(0, d["sok"][0])
+    def wrongconn(st, d): d["conn"] = d["seen"][0][0]
+    def notrecorded(st, d): st["working"] = d["seen"][0][0]
     def wrongsni(st, d): d["snis"][0] = "other.example.com"
-    def tcpish(st, d): d["ret"] = "tcperr"; d["conn"] = "-"
-    def toomany(st, d): d["seen"].append(next(x for x in IDS if x != d["seen"][-1]))
+    def tcpish(st, d): d["ret"] = "tcperr"; d["conn"] = "-"; d["cseed"] = ""
+    def toomany(st, d): d["seen"].append([next(x for x in IDS if x != RAND and x != d["seen"][-1][0]), 0]); d["sok"].append(False)
     muts = {"order-swapped": swap, "id-tried-twice": dup, "returned-conn-not-the-accepted-one": wrongconn, "working-not-recorded": notrecorded,
             "wrong-sni": wrongsni, "tcp-error-after-hellos": tcpish, "kept-trying-after-success": toomany}
     names = sorted(muts)
@@ -265,11 +285,40 @@ def _run(ctx, pool):
             raise vlib.Machinery("binding canary accepted by the trace specification: %s" % swallowed)
     else:
         names = []
+    # canaries about the concrete fingerprint of a randomized working ID
+    def rand_reused(r):   # a randomized hello worked, and the next (sequential) Dial presented the same fingerprint first
+        if r["id"] not in acc or len(r["steps"]) < 2:
+            return False
+        s1, s2 = r["steps"][0], r["steps"][1]
+        d1, d2 = s1["dials"][0], s2["dials"][0]
+        return (s1["n"] == 1 and s2["n"] == 1 and d1["ret"] == "ok" and d1["conn"] == RAND and s1["wseed"] != "" and d2["seen"] and d2["seen"][0] == d1["seen"][-1])
+    rbase = next((r for r in allrows if rand_reused(r)), None)
+    if rbase is None and not ctx.findings:
+        raise vlib.Machinery("vacuity: no accepted history in which a randomized fingerprint worked and was presented again by the next Dial")
+    rnames = []
+    if rbase is not None:
+        def rvariant(f):
+            c = json.loads(json.dumps(rbase)); f(c); return c
+        def seed_dropped(c): c["steps"][0]["wseed"] = ""
+        def seed_other(c): c["steps"][0]["wseed"] = "00" * 32
+        def rerandomized(c): c["steps"][1]["dials"][0]["seen"][0][1] = 23
+        def conn_without_seed(c): c["steps"][0]["dials"][0]["cseed"] = ""
+        rmuts = {"working-seed-dropped": seed_dropped, "working-seed-not-the-connections": seed_other,
+                 "working-fingerprint-rerandomized": rerandomized, "returned-conn-without-seed": conn_without_seed}
+        rnames = sorted(rmuts)
+        crow = [dict(rbase, id=1)] + [dict(rvariant(rmuts[n]), id=k + 2) for k, n in enumerate(rnames)]
+        cacc = validate(ctx, crow, shards=1, tagname="d")
+        if 1 not in cacc:
+            raise vlib.Machinery("canary control history (randomized) was rejected")
+        swallowed = [rnames[k - 2] for k in cacc if k != 1]
+        if swallowed:
+            raise vlib.Machinery("binding canary accepted by the trace specification: %s" % swallowed)
+    names = names + rnames
 
     # ------------------------------------------------------------------ 5. model-checking results + vacuity
-    safe, cov, live = f_safe.result(), f_cov.result(), f_live.result()
-    if safe.violated or cov.violated or live.violated:
-        raise vlib.Machinery("the Roller model violates its own properties: %s" % (safe.violated + cov.violated + live.violated))
+    safe, seq, cov, live = f_safe.result(), f_seq.result(), f_cov.result(), f_live.result()
+    if safe.violated or seq.violated or cov.violated or live.violated:
+        raise vlib.Machinery("the Roller model violates its own properties: %s" % (safe.violated + seq.violated + cov.violated + live.violated))
     never = [a for a in MC_ACTIONS if cov.coverage.get(a, 0) == 0]
     if never:
         raise vlib.Machinery("vacuity: actions never taken in the exhaustive run: %s" % never)
@@ -281,15 +330,22 @@ def _run(ctx, pool):
                 yield r, st, d, w
             w = st["working"]
     seen = {"working_tried_first_then_fallthrough": 0, "preset_outside_configured_prepended": 0, "all_ids_refused": 0, "tcp_error": 0,
-            "two_concurrent_successes": 0, "working_updated": 0, "histories_of_length_3": 0}
+            "two_concurrent_successes": 0, "working_updated": 0, "histories_of_length_3": 0,
+            "randomized_fingerprint_presented_again_by_next_dial": 0, "randomized_fingerprint_pinned_server_accepts_again": 0, "seeded_working_refused_then_fresh_randomized": 0}
     for r in accrows:
         seen["histories_of_length_3"] += len(r["steps"]) >= 3
         for _, st, d, w in dials(r):
-            seen["working_tried_first_then_fallthrough"] += (st["n"] == 1 and w != "-" and len(d["seen"]) >= 2 and d["seen"][0] == w)
-            seen["preset_outside_configured_prepended"] += (st["n"] == 1 and w != "-" and w not in r["configured"] and d["seen"][:1] == [w])
+            seen["working_tried_first_then_fallthrough"] += (st["n"] == 1 and w != "-" and len(d["seen"]) >= 2 and d["seen"][0][0] == w)
+            seen["preset_outside_configured_prepended"] += (st["n"] == 1 and w != "-" and w not in r["configured"] and [x[0] for x in d["seen"][:1]] == [w])
             seen["all_ids_refused"] += d["ret"] == "hserr"
             seen["tcp_error"] += d["ret"] == "tcperr"
             seen["working_updated"] += (st["n"] == 1 and d["ret"] == "ok" and d["conn"] != w)
+        for s1, s2 in zip(r["steps"], r["steps"][1:]):
+            d1, d2 = s1["dials"][0], s2["dials"][0]
+            if s1["n"] == 1 and s2["n"] == 1 and d1["ret"] == "ok" and d1["conn"] == RAND and s1["wseed"] != "" and d2["seen"] and d2["seen"][0] == d1["seen"][-1]:
+                seen["randomized_fingerprint_presented_again_by_next_dial"] += 1
+                seen["randomized_fingerprint_pinned_server_accepts_again"] += (s2["rmode"] == "pin" and d2["ret"] == "ok" and len(d2["seen"]) == 1)
+                seen["seeded_working_refused_then_fresh_randomized"] += (len([x for x in d2["seen"] if x[0] == RAND]) >= 2)
         for st in r["steps"]:
             seen["two_concurrent_successes"] += (st["n"] == 2 and all(d["ret"] == "ok" for d in st["dials"]))
     empty = [k for k, v in seen.items() if v == 0]
@@ -298,7 +354,7 @@ def _run(ctx, pool):
     ndials = sum(len(st["dials"]) for r in allrows for st in r["steps"])
     nhello = sum(len(d["seen"]) for r in allrows for st in r["steps"] for d in st["dials"])
     sample = [{"configured": r["configured"], "preset": r["preset"],
-               "steps": [{"accept": st["accept"], "tcpfail": st["tcpfail"], "dials": [{"seen": d["seen"], "ret": d["ret"], "conn": d["conn"]} for d in st["dials"]], "working_after": st["working"]} for st in r["steps"]]}
+               "steps": [{"accept": st["accept"], "rmode": st["rmode"], "tcpfail": st["tcpfail"], "dials": [{"seen": d["seen"], "ret": d["ret"], "conn": d["conn"]} for d in st["dials"]], "working_after": st["working"], "working_seed": st["wseed"][:8]} for st in r["steps"]]}
               for r in accrows[:2]]
     cov_d = {"evaluations": ndials, "distinct_nontrivial": len(scs),
              "rule": "evaluations = Roller.Dial calls made on the real code (loopback TCP, -race); distinct = distinct Dial histories "
@@ -307,10 +363,11 @@ def _run(ctx, pool):
              "histories": len(scs), "accepted": len(acc), "rejected_and_reproduced": len(sigs), "rejected_signatures": sorted(set(sigs.values())), "rerun_rounds_used": reruns_used,
              "hellos_seen_by_server": nhello, "branches_seen_in_accepted_histories": seen, "canaries_rejected": names,
              "mc_actions_covered": {a: cov.coverage.get(a, 0) for a in MC_ACTIONS},
-             "model": {"safety_states": safe.distinct, "max_steps": 2 if q else 3, "liveness_states": live.distinct},
+             "model": {"safety_states_2_callers": safe.distinct, "max_steps_2_callers": 1 if q else 3, "safety_states_sequential": seq.distinct,
+                       "max_steps_sequential": 2 if q else 3, "liveness_states": live.distinct},
              "race_detector": "on", "race_reports": 1 if racerep else 0, "samples": sample, "exhaustive": False}
     return "model_checking", cov_d, [
-        "the test server recognises a ClientHelloID by its GREASE-free suite / extension-set / curve / signature-algorithm fingerprint (learned from the real code per run)",
-        "Roller.HelloIDs holds no repeated ID; HelloRandomized is not among the candidates (the server cannot recognise it)",
+        "the test server recognises a parrot by its GREASE-free suite / extension-set / curve / signature-algorithm fingerprint (learned from the real code per run); any other hello is a randomized one, identified by its order-sensitive fingerprint (two hellos get the same number iff suites, extension sequence, curves, signature algorithms, versions and ALPN agree)",
+        "Roller.HelloIDs holds no repeated ID; of the randomized IDs only the unseeded HelloRandomized is a candidate",
         "data-race freedom is the Go race detector's judgement on the executed schedules, not a TLA+ result",
     ]
